@@ -273,6 +273,8 @@ impl Store {
             return;
         }
         self.manifest.files = std::mem::take(&mut self.next_files);
+        // Until the write below succeeds the on-disk manifest is not this one.
+        self.on_disk_current = false;
 
         let manifest = match toml::to_string(&self.manifest) {
             Ok(x) => x,
